@@ -180,6 +180,181 @@ def lean_str(t):
     return '"' + t.replace("\\", "\\\\").replace('"', '\\"') + '"'
 
 
+
+# ------------------------------------------------------------------------------------------------------------
+# Translator for the response writer: StatusLine::write_all, ResponseHeaders::{write_allow_header,
+# write_deprecation_header, write_all}, Response::{write_body, write_all} become ONE Lean function
+# `Response → List (List UInt8)` — the byte slices handed to `Write::write_all`, in order. Only the statement and
+# expression forms listed here are understood; anything else makes the whole writer `none` (fallback to the
+# correspondence).
+
+class Unparsed(Exception):
+    pass
+
+
+def split_stmts(body):
+    """top-level statements of a `{ ... }` block (text without the outer braces)"""
+    out, depth, cur, i, in_str = [], 0, "", 0, False
+    while i < len(body):
+        c = body[i]
+        cur += c
+        if in_str:
+            if c == "\\":
+                cur += body[i + 1]
+                i += 1
+            elif c == '"':
+                in_str = False
+        elif c == '"':
+            in_str = True
+        elif c in "{([":
+            depth += 1
+        elif c in "})]":
+            depth -= 1
+            if c == "}" and depth == 0 and re.match(r"\s*(if|for)\b", cur):
+                # a block statement ends at its closing brace unless an `else` follows
+                rest = body[i + 1:].lstrip()
+                if not rest.startswith("else"):
+                    out.append(cur.strip())
+                    cur = ""
+        elif c == ";" and depth == 0:
+            out.append(cur.strip())
+            cur = ""
+        i += 1
+    if cur.strip():
+        out.append(cur.strip())
+    return out
+
+
+BYTE_NAMES = {"SP": "SP", "CR": "CR", "LF": "LF", "COLON": "COLON"}
+
+
+def tr_expr(e, env):
+    e = e.strip()
+    m = re.fullmatch(r"b" + STR, e)
+    if m:
+        return lean_bytes(unescape(m.group(1)))
+    m = re.fullmatch(r"&\[([A-Z, ]+)\]", e)
+    if m:
+        names = [x.strip() for x in m.group(1).split(",") if x.strip()]
+        if all(n in BYTE_NAMES for n in names):
+            return "[" + ", ".join(BYTE_NAMES[n] for n in names) + "]"
+    if e in env:
+        return env[e]
+    fixed = {
+        "self.http_version.raw()": "r.version.raw",
+        "self.status_code.raw()": "r.status.raw",
+        "self.server.as_bytes()": "r.server",
+        "self.content_type.as_str().as_bytes()": "r.contentType.raw",
+    }
+    if e in fixed:
+        return fixed[e]
+    m = re.fullmatch(r"Header::(\w+)\.raw\(\)", e)
+    if m:
+        return "Header." + m.group(1)[0].lower() + m.group(1)[1:] + ".raw"
+    m = re.fullmatch(r"(\w+)\.to_string\(\)\.as_bytes\(\)", e)
+    if m and env.get(m.group(1) + ":int"):
+        return f"decimalInt {m.group(1)}"
+    m = re.fullmatch(r"(\w+)\.raw\(\)", e)
+    if m and env.get(m.group(1) + ":raw"):
+        return env[m.group(1) + ":raw"]
+    raise Unparsed("expression " + e)
+
+
+def tr_cond(c, env):
+    c = c.strip()
+    table = {
+        "self.allow.is_empty()": "r.allow.isEmpty",
+        "!self.deprecation": "!r.deprecation",
+        "self.deprecation": "r.deprecation",
+        "self.accept_encoding": "r.acceptEncoding",
+        "!self.accept_encoding": "!r.acceptEncoding",
+    }
+    if c in table:
+        return table[c]
+    m = re.fullmatch(r"(\w+)\s*<\s*self\.allow\.len\(\)\s*-\s*1", c)
+    if m and env.get(m.group(1) + ":idx"):
+        return f"decide ({m.group(1)} < r.allow.length - 1)"
+    raise Unparsed("condition " + c)
+
+
+def tr_block(stmts, env, fns):
+    """Lean term of type List (List UInt8) for a statement sequence"""
+    if not stmts:
+        return "[]"
+    s, rest = stmts[0], stmts[1:]
+    env = dict(env)
+    m = re.fullmatch(r"(?:buf|\(\*buf\))\.write_all\((.*)\)\?;", s, flags=re.S) or re.fullmatch(r"buf\.write_all\((.*)\)", s, flags=re.S)
+    if m:
+        return f"([{tr_expr(m.group(1), env)}] ++ {tr_block(rest, env, fns)})"
+    m = re.fullmatch(r"self\.(?:(status_line|headers)\.)?(\w+)\((?:&mut )?buf\)\?;", s)
+    if m:
+        owner = {"status_line": "StatusLine", "headers": "ResponseHeaders", None: None}[m.group(1)]
+        return f"({fns(owner, m.group(2))} ++ {tr_block(rest, env, fns)})"
+    m = re.fullmatch(r"let\s+(\w+)\s*=\s*b" + STR + r"\s*;", s)
+    if m:
+        env[m.group(1)] = lean_bytes(unescape(m.group(2)))
+        return tr_block(rest, env, fns)
+    m = re.fullmatch(r"if\s+(.*?)\s*\{\s*return\s+Ok\(\(\)\);\s*\}", s, flags=re.S)
+    if m:
+        return f"(if {tr_cond(m.group(1), env)} then [] else {tr_block(rest, env, fns)})"
+    m = re.fullmatch(r"if\s+let\s+Some\((?:ref\s+)?(\w+)\)\s*=\s*self\.(\w+)\s*(\{.*\})", s, flags=re.S)
+    if m:
+        name, field, blk = m.group(1), m.group(2), m.group(3)
+        inner = dict(env)
+        if field == "content_length":
+            inner[name + ":int"] = True
+            scrut = "r.contentLength"
+        elif field == "body":
+            inner[name + ":raw"] = name
+            scrut = "r.body"
+        else:
+            raise Unparsed("if let on " + field)
+        body = tr_block(split_stmts(blk[1:-1]), inner, fns)
+        return f"((match {scrut} with | none => [] | some {name} => {body}) ++ {tr_block(rest, env, fns)})"
+    m = re.fullmatch(r"if\s+(.*?)\s*(\{.*\})", s, flags=re.S)
+    if m and "else" not in s.split("{")[0]:
+        blk = m.group(2)
+        if re.search(r"\}\s*else\b", blk):
+            raise Unparsed("if/else")
+        return f"((if {tr_cond(m.group(1), env)} then {tr_block(split_stmts(blk[1:-1]), env, fns)} else []) ++ {tr_block(rest, env, fns)})"
+    m = re.fullmatch(r"for\s+\((\w+),\s*(\w+)\)\s+in\s+self\.allow\.iter\(\)\.enumerate\(\)\s*(\{.*\})", s, flags=re.S)
+    if m:
+        idx, var, blk = m.groups()
+        inner = dict(env)
+        inner[idx + ":idx"] = True
+        inner[var + ":raw"] = f"{var}.raw"
+        body = tr_block(split_stmts(blk[1:-1]), inner, fns)
+        return f"(forEnum r.allow (fun {idx} {var} => {body}) ++ {tr_block(rest, env, fns)})"
+    if re.fullmatch(r"Ok\(\(\)\)", s):
+        if rest:
+            raise Unparsed("statements after Ok(())")
+        return "[]"
+    raise Unparsed("statement " + s[:80])
+
+
+def translate_writer(resp):
+    bodies = {}
+
+    def fns(owner, name):
+        key = (owner, name)
+        if key in bodies:
+            return bodies[key]
+        cands = [owner] if owner else ["Response", "ResponseHeaders", "StatusLine"]
+        for ty in cands:
+            b = fn_body(resp, ty, name)
+            if b is not None:
+                bodies[key] = tr_block(split_stmts(b[1:-1]), {}, fns)
+                return bodies[key]
+        raise Unparsed(f"function {owner}::{name}")
+
+    try:
+        return fns("Response", "write_all"), None
+    except Unparsed as e:
+        return None, str(e)
+    except RecursionError:
+        return None, "recursion"
+
+
 def main():
     conn, srv, common, headers, resp, req = (read(x) for x in
                                              ("connection.rs", "server.rs", "common/mod.rs", "common/headers.rs", "response.rs", "request.rs"))
@@ -229,11 +404,18 @@ def main():
     lits = [unescape(m.group(1)) for m in re.finditer(r"write_all\(\s*b" + STR + r"\s*\)", resp)]
     items.append(("responseLiterals", "List (List UInt8)", None if not lits else "[" + ", ".join(lean_bytes(b) for b in lits) + "]"))
 
+    writer, why = translate_writer(resp)
     lines = ["/-",
              "  GENERATED by /verif/tools/extract.py from /repo/src on every run of `check` — do not edit.",
              "  `none` = the translator did not find the item in the source (see tools/extract.py).",
              "-/",
-             "namespace MicroHttp.Extracted", ""]
+             "import MicroHttp.Response", "import MicroHttp.Headers",
+             "namespace MicroHttp.Extracted", "open MicroHttp", "",
+             "/-- `for (idx, x) in l.iter().enumerate()` -/",
+             "def forEnumFrom {α β : Type} (f : Nat → α → List β) : Nat → List α → List β",
+             "  | _, [] => []",
+             "  | i, x :: xs => f i x ++ forEnumFrom f (i + 1) xs",
+             "def forEnum {α β : Type} (l : List α) (f : Nat → α → List β) : List β := forEnumFrom f 0 l", ""]
     summary = {}
     for name, ty, val in items:
         summary[name] = "ok" if val is not None else "unparsed"
@@ -241,6 +423,13 @@ def main():
             lines.append(f"def {name} : Option ({ty}) := none")
         else:
             lines.append(f"def {name} : Option ({ty}) := some {val}" if ty == "Nat" else f"def {name} : Option ({ty}) :=\n  some {val}")
+    summary["responseWriter"] = "ok" if writer else "unparsed: " + str(why)
+    lines.append("")
+    lines.append("/-- the byte slices `Response::write_all` hands to `Write::write_all`, in order, translated from response.rs -/")
+    if writer:
+        lines.append("def responseWriter : Option (Response → List (List UInt8)) :=\n  some fun r => " + writer)
+    else:
+        lines.append("def responseWriter : Option (Response → List (List UInt8)) := none")
     lines += ["", "end MicroHttp.Extracted", ""]
     text = "\n".join(lines)
     old = open(OUT).read() if os.path.exists(OUT) else None
